@@ -130,7 +130,8 @@ class Ctx:
         self.rng = random.Random(seed)
         self.repo = REPO
         self.verif = VERIF
-        self.build = os.path.join(VERIF, "build", pid)
+        # VERIF_BUILD_TAG lets two runs of the same check (e.g. coordinator and developer) use separate scratch dirs
+        self.build = os.path.join(VERIF, "build", pid + os.environ.get("VERIF_BUILD_TAG", ""))
         os.makedirs(self.build, exist_ok=True)
         os.makedirs(os.path.join(VERIF, "evidence"), exist_ok=True)
         os.makedirs(os.path.join(VERIF, "replays"), exist_ok=True)
